@@ -23,6 +23,14 @@ def gen_signature(r: random.Random, big):
             params.append(("txn", r.choice(list(TXN_TYPES))))
         else:
             params.append(("ref", r.choice(REF_TYPES)))
+    if big and r.random() < 0.6:
+        # reference and dynamic parameters inside the tuple that packs the 15th and later arguments, followed by further parameters
+        plain = [p for p in params if p[0] != "txn"][:14]
+        while len(plain) < 14:
+            plain.append(("abi", r.choice(ABI_TYPES)))
+        tail = [("ref", r.choice(REF_TYPES)) if r.random() < 0.5 else ("abi", r.choice(ABI_TYPES)) for _ in range(r.randrange(2, 5))]
+        tail[r.randrange(0, len(tail) - 1)] = ("ref", r.choice(REF_TYPES))
+        params = [p for p in params if p[0] == "txn"][:2] + plain + tail
     ret = r.choice([None, None, "uint64", "string", "(uint8,string)", "bool"])
     return params, ret
 
